@@ -30,6 +30,19 @@ Record cfg := mkCfg {
   cE : codeenv
 }.
 
+(* The part of a configuration the specification may depend on: input, Unicode
+   library, run-time options, grammar and code environment - neither the template
+   flags nor the quirk switches. *)
+Record rdata := mkRdata {
+  rU : ulib;
+  rO : options;
+  rData : bytes;
+  rG : grammar;
+  rE : codeenv
+}.
+Definition rd (c : cfg) : rdata := mkRdata (cU c) (cO c) (cData c) (cG c) (cE c).
+Coercion rd : cfg >-> rdata.
+
 Inductive Res (A : Type) :=
 | Ok (a : A) (s : pstate)
 | Panic (pv : bytes) (s : pstate)
@@ -575,11 +588,13 @@ Definition no_match_error (c : cfg) (s : pstate) : pstate :=
   let expected := if eof then sorted ++ [b_eof] else sorted in
   addErrAt c (msg_no_match ++ listJoin expected) (maxFailPos s) expected s.
 
-Definition entry_name (c : cfg) : option rname :=
-  match o_entry (cO c) with
-  | [] => match cG c with [] => None | r :: _ => Some (r_name r) end
+Definition entry_of (o : options) (g : grammar) : option rname :=
+  match o_entry o with
+  | [] => match g with [] => None | r :: _ => Some (r_name r) end
   | e => Some e
   end.
+
+Definition entry_name (c : cfg) : option rname := entry_of (cO c) (cG c).
 
 Definition finish (c : cfg) (v : val) (s : pstate) : outcome :=
   Returned v (dedupe (errs s)) s.
